@@ -6,10 +6,14 @@ val last : 'a1 list -> 'a1 -> 'a1
 
 val map : ('a1 -> 'a2) -> 'a1 list -> 'a2 list
 
+val fold_left : ('a1 -> 'a2 -> 'a1) -> 'a2 list -> 'a1 -> 'a1
+
 val existsb : ('a1 -> bool) -> 'a1 list -> bool
 
 val firstn : nat -> 'a1 list -> 'a1 list
 
 val skipn : nat -> 'a1 list -> 'a1 list
+
+val seq : nat -> nat -> nat list
 
 val repeat : 'a1 -> nat -> 'a1 list
